@@ -6,8 +6,19 @@
 package main
 
 import (
+	"crypto/ecdsa"
+	"crypto/elliptic"
+	"crypto/rand"
+	"crypto/x509"
+	"crypto/x509/pkix"
+	"encoding/pem"
 	"fmt"
+	"io"
+	"log"
+	"math/big"
+	"net"
 	"os"
+	"path/filepath"
 	"sort"
 	"strings"
 	"sync"
@@ -210,6 +221,26 @@ func randomScript(r *rng.R, n int) []step {
 	return finish(body)
 }
 
+const h2cSig = "use-h2c-upgraded-connection-not-drained"
+
+// findingListed: is the signature an unrepaired finding of C19 in known_findings.txt?
+func findingListed(sig string) bool {
+	exe, err := os.Executable()
+	if err != nil {
+		return false
+	}
+	b, err := os.ReadFile(filepath.Join(filepath.Dir(exe), "..", "..", "known_findings.txt"))
+	if err != nil {
+		return false
+	}
+	for _, line := range strings.Split(string(b), "\n") {
+		if strings.HasPrefix(line, "finding:") && strings.Contains(line, "property=C19") && strings.Contains(line, "sig="+sig) {
+			return true
+		}
+	}
+	return false
+}
+
 func midString(s *scenario) string {
 	var ids []int
 	for id, on := range s.mid {
@@ -227,7 +258,7 @@ func midString(s *scenario) string {
 func h2cString(s *scenario) string {
 	var ids []int
 	for id, on := range s.h2c {
-		if on {
+		if on && (s.transport == "http" || s.rawOverH2c) {
 			ids = append(ids, id)
 		}
 	}
@@ -248,8 +279,14 @@ func hasLaunch(ts []tok, r int) bool {
 }
 
 func main() {
+	if spec := os.Getenv("C19_CHILD"); spec != "" {
+		childMain(spec)
+		return
+	}
 	cfg := out.ParseFlags("C19")
 	gin.SetMode(gin.ReleaseMode)
+	log.SetOutput(io.Discard) // net/http reports the TLS handshakes the listening probes abort
+	makeCertificate(cfg.Dir)
 	r := rng.New(cfg.Seed)
 	w := out.NewWriter(cfg, "Verif.Corr.C19", 150)
 	flavors := []string{"Plain", "Gin", "Mux"}
@@ -258,14 +295,22 @@ func main() {
 	var groups []*group
 	groupOf := map[int]string{}
 	mk := func(fl string, held, keep bool, sc []step, tag string) *scenario {
-		s := &scenario{flavor: fl, portHeld: held, keepalive: keep, script: sc, tag: tag, sizes: map[int]int{}, split: map[int]bool{}, h2c: map[int]bool{}, mid: map[int]bool{}, ctxKind: "cancel"}
+		s := &scenario{flavor: fl, portHeld: held, keepalive: keep, script: sc, tag: tag, sizes: map[int]int{}, split: map[int]bool{}, h2c: map[int]bool{}, mid: map[int]bool{}, ctxKind: "cancel", transport: "http"}
+		switch k := r.Intn(20); {
+		case k < 4:
+			s.transport = "tls"
+		case k < 6:
+			s.transport = "tls_h2"
+		case k < 8:
+			s.transport = "h2c"
+		}
 		for _, st := range sc {
 			if st.op == "launch" || st.op == "late" || st.op == "slow_open" {
 				s.sizes[st.r] = sizes[r.Intn(len(sizes))]
 				s.split[st.r] = r.Chance(1, 3)
 			}
 			if st.op == "launch" {
-				s.h2c[st.r] = r.Chance(1, 4)
+				s.h2c[st.r] = s.transport == "http" && r.Chance(1, 4)
 				s.mid[st.r] = r.Chance(1, 3)
 			}
 		}
@@ -277,6 +322,13 @@ func main() {
 			s.ctxKind = "dl_child"
 		case k == 3:
 			s.ctxKind = "dl_cancel"
+		}
+		hasCancel := false
+		for _, st := range sc {
+			hasCancel = hasCancel || st.op == "cancel"
+		}
+		if !hasCancel && (s.ctxKind == "dl_expire" || s.ctxKind == "dl_child") {
+			s.ctxKind = "dl_cancel" // no cancel step: the deadline must not expire on its own
 		}
 		scs = append(scs, s)
 		return s
@@ -323,6 +375,9 @@ func main() {
 		{idle: ms(40), read: ms(60), readHeader: ms(50)}, {idle: ms(30), read: ms(80), write: 2 * time.Minute, readHeader: ms(60)},
 	}
 	withCfg := func(s *scenario, c tcfg) *scenario {
+		if s.transport == "tls_h2" {
+			return s // the HTTP/2 server has its own reading of these timeouts: not mixed here
+		}
 		s.idle, s.read, s.write, s.readHeader = c.idle, c.read, c.write, c.readHeader
 		return s
 	}
@@ -398,11 +453,11 @@ func main() {
 	for _, fl := range flavors {
 		for k := 0; k < 2; k++ {
 			sn := add(fl, false, false, finish([]step{L(0), C, P, R(0)}), "corpus_h2c")
-			sn.h2c[0] = true
+			sn.h2c[0], sn.transport = true, "http"
 			sn = add(fl, false, k == 1, finish([]step{L(0), L(1), R(0), C, P, U, R(1)}), "corpus_h2c")
-			sn.h2c[0], sn.h2c[1] = true, k == 0
+			sn.h2c[0], sn.h2c[1], sn.transport = true, k == 0, "http"
 			sn = add(fl, false, false, finish([]step{L(0), L(1), L(2), C, P, R(2), R(0), {"late", 41}, R(1)}), "corpus_h2c")
-			sn.h2c[0], sn.h2c[1], sn.h2c[2] = true, false, true
+			sn.h2c[0], sn.h2c[1], sn.h2c[2], sn.transport = true, false, true, "http"
 			sn.sizes[0], sn.sizes[2] = 70000, 3000
 		}
 	}
@@ -420,10 +475,55 @@ func main() {
 			sn.mid[0], sn.mid[1], sn.ctxKind = false, false, kind
 			// the request head is still being received at the cancellation: not "already being handled";
 			// it must be served in full or not at all
-			sn = add(fl, false, false, finish([]step{L(0), SO(60), C, P, SF(60), R(0)}), "corpus_slow_head")
+			sn = add(fl, false, false, finish([]step{L(0), SO(90), C, P, SF(90), R(0)}), "corpus_slow_head")
 			sn.ctxKind = kind
-			sn = add(fl, false, false, finish([]step{SO(60), SO(61), C, SF(61), SF(60)}), "corpus_slow_head")
+			sn = add(fl, false, false, finish([]step{SO(90), SO(91), C, SF(91), SF(90)}), "corpus_slow_head")
 			sn.ctxKind = kind
+		}
+	}
+
+	// ---- corpus: the shutdown shapes over TLS, HTTP/2 over TLS and with use_h2c on ----
+	for _, fl := range flavors {
+		for _, tr := range []string{"tls", "tls_h2", "h2c"} {
+			for k := 0; k < 2; k++ {
+				for _, sc := range [][]step{
+					finish([]step{L(0), C, P, R(0)}),
+					finish([]step{L(0), L(1), R(0), C, P, U, R(1)}),
+					finish([]step{L(0), R(0), C, U}),
+					finish([]step{L(0), L(1), L(2), C, {"late", 41}, R(2), R(0), R(1)}),
+				} {
+					sn := add(fl, false, k == 1, sc, "corpus_transport")
+					sn.transport, sn.h2c = tr, map[int]bool{}
+					if tr == "tls_h2" {
+						sn.idle, sn.read, sn.write, sn.readHeader = 0, 0, 0, 0
+					}
+				}
+			}
+			sn := add(fl, true, false, []step{{"start", 0}, {"await", 0}}, "corpus_transport")
+			sn.transport = tr
+			sn = add(fl, false, false, finish([]step{L(0), SO(90), C, P, SF(90), R(0)}), "corpus_transport")
+			sn.transport, sn.h2c = tr, map[int]bool{}
+			if tr == "tls_h2" {
+				sn.transport = "tls"
+			}
+		}
+		// the listening socket cannot be created: a temporary error must be returned like any other
+		for k := 0; k < 2; k++ {
+			sn := add(fl, true, false, []step{{"start", 0}, {"await", 0}}, "listen_fail_temporary")
+			sn.listenErr, sn.transport, sn.ctxKind = "emfile", "http", "cancel"
+		}
+	}
+
+	// Recorded finding (unrepaired): with use_h2c on, a connection that takes the h2c upgrade is hijacked
+	// by the h2c handler and Shutdown does not wait for it. These cases carry the signature of the finding;
+	// they are generated only when known_findings.txt lists it (or for a manual probe).
+	h2cProbe := os.Getenv("C19_PROBE_H2C_UPGRADE") != "" || findingListed(h2cSig)
+	sigOf := map[*scenario]string{}
+	if h2cProbe {
+		for _, fl := range flavors {
+			sn := add(fl, false, false, finish([]step{L(0), C, P, R(0)}), "finding_h2c_upgrade")
+			sn.transport, sn.h2c[0], sn.mid[0], sn.rawOverH2c = "h2c", true, false, true
+			sigOf[sn] = h2cSig
 		}
 	}
 
@@ -502,10 +602,10 @@ func main() {
 			var with []step
 			for _, st := range dsc {
 				if st.op == "cancel" {
-					with = append(with, step{"slow_open", 60})
+					with = append(with, step{"slow_open", 90})
 				}
 				if st.op == "await" {
-					with = append(with, step{"slow_finish", 60})
+					with = append(with, step{"slow_finish", 90})
 				}
 				with = append(with, st)
 			}
@@ -586,7 +686,14 @@ func main() {
 			evs = append(evs, e.term)
 			evjs = append(evjs, e.js)
 		}
-		term := emit.App("CRun", s.flavor, emit.Bool(s.portHeld), scriptCoq(s.script), emit.List(evs))
+		tr := map[string]string{"http": "THttp", "tls": "TTls", "tls_h2": "TTlsH2", "h2c": "TH2c"}[s.transport]
+		le := "LNone"
+		if s.listenErr == "emfile" {
+			le = "LTemporary"
+		} else if s.portHeld {
+			le = "LAddrInUse"
+		}
+		term := emit.App("CRun", s.flavor, tr, le, scriptCoq(s.script), emit.List(evs))
 		ids := make([]int, 0, len(s.sizes))
 		for id := range s.sizes {
 			ids = append(ids, id)
@@ -597,7 +704,7 @@ func main() {
 			bodies = append(bodies, fmt.Sprintf("%d:%d%s", id, s.sizes[id], map[bool]string{true: "/split", false: ""}[s.split[id]]))
 		}
 		js := map[string]interface{}{
-			"router": s.flavor, "port_held": s.portHeld, "keepalive": s.keepalive, "script": scriptString(s.script),
+			"router": s.flavor, "transport": s.transport, "listen_error": s.listenErr, "port_held": s.portHeld, "keepalive": s.keepalive, "script": scriptString(s.script),
 			"bodies": strings.Join(bodies, " "), "in_flight_at_cancel": inflight, "config": s.cfgString(), "h2c_upgrade_clients": h2cString(s), "held_in_middleware": midString(s), "group": groupOf[i],
 			"observed": map[string]interface{}{"trace": strings.Join(evjs, " "), "runner_error": res.errText, "notes": res.notes, "clients": res.clients},
 		}
@@ -620,6 +727,10 @@ func main() {
 			w.Count("with_requests_held_in_middleware")
 		}
 		w.Count("ctx:" + s.ctxKind)
+		w.Count("transport:" + s.transport)
+		if s.listenErr != "" {
+			w.Count("listen_error:" + s.listenErr)
+		}
 		if groupOf[i] != "" {
 			w.Count("shared_runner_func")
 		}
@@ -632,13 +743,37 @@ func main() {
 		for _, k := range res.counts {
 			w.Count(k)
 		}
-		w.Add(term, js, "", canon, nontrivial)
+		w.Add(term, js, sigOf[s], canon, nontrivial)
 	}
 	w.Meta["port_retries_address_in_use"] = retries
 	w.Meta["scenarios_rerun_after_expired_wait"] = stallRetries
 	w.Meta["exhaustive_bound"] = exhaustiveBound
-	w.Close("real server.RunServer / gin Run (lura's engine and endpoint handler) / mux Run (lura's endpoint handler) on 127.0.0.1; a quarter of the scripted requests come from raw-socket clients offering the h2c upgrade; a third are held by a gated user middleware (Config.Middlewares) before the endpoint handler; raw clients whose request head is completed only after the cancellation; the runner's context is WithCancel, a hand-cancelled WithTimeout, a WithTimeout that expires at the cancel step, or a child of one; groups of 2-3 servers driven by one runner func with independent contexts (each server one case); two thirds of the handlers / stub proxies follow their request context as lura's pipes do; ServiceConfig idle/read/read_header timeouts of 30-80 ms alone and combined (write timeout large next to gated answers) with in-flight handlers held past them; corpus (in flight at cancel with early-return window, refusal while handlers run, 32 in flight with large half-written bodies, cancel before start, port held) + "+exhaustiveBound+" + random scripts with up to 32 requests + repeated listener-failure/early-cancel races; compared: imposed order, trace inclusion in the model, graceful_b; nontrivial = a request in flight at the cancellation, port held or cancelled before start", true)
+	w.Close("real server.RunServer / gin Run (lura's engine and endpoint handler) / mux Run (lura's endpoint handler) on 127.0.0.1; transports: cleartext, TLS with a self-signed certificate made at run time (HTTP/1.1 and HTTP/2), use_h2c on; listener failures: port held, and socket creation failing with EMFILE in a child process with a full descriptor table (bounded); a quarter of the scripted cleartext requests come from raw-socket clients offering the h2c upgrade; a third are held by a gated user middleware (Config.Middlewares) before the endpoint handler; raw clients whose request head is completed only after the cancellation; the runner's context is WithCancel, a hand-cancelled WithTimeout, a WithTimeout that expires at the cancel step, or a child of one; groups of 2-3 servers driven by one runner func with independent contexts (each server one case); two thirds of the handlers / stub proxies follow their request context as lura's pipes do; ServiceConfig idle/read/read_header timeouts of 30-80 ms alone and combined (write timeout large next to gated answers) with in-flight handlers held past them; corpus (in flight at cancel with early-return window, refusal while handlers run, 32 in flight with large half-written bodies, cancel before start, port held) + "+exhaustiveBound+" + random scripts with up to 32 requests + repeated listener-failure/early-cancel races; compared: imposed order, trace inclusion in the model, graceful_b; nontrivial = a request in flight at the cancellation, port held or cancelled before start", true)
 	if len(scs) == 0 {
 		os.Exit(1)
 	}
+}
+
+// makeCertificate writes a self-signed certificate for 127.0.0.1 into the output directory
+func makeCertificate(dir string) {
+	os.MkdirAll(dir, 0o755)
+	key, err := ecdsa.GenerateKey(elliptic.P256(), rand.Reader)
+	if err != nil {
+		panic(err)
+	}
+	tmpl := &x509.Certificate{SerialNumber: big.NewInt(19), Subject: pkix.Name{CommonName: "c19"},
+		NotBefore: time.Now().Add(-time.Hour), NotAfter: time.Now().Add(24 * time.Hour),
+		KeyUsage: x509.KeyUsageDigitalSignature | x509.KeyUsageCertSign, ExtKeyUsage: []x509.ExtKeyUsage{x509.ExtKeyUsageServerAuth},
+		IsCA: true, BasicConstraintsValid: true, IPAddresses: []net.IP{net.ParseIP("127.0.0.1")}, DNSNames: []string{"localhost"}}
+	der, err := x509.CreateCertificate(rand.Reader, tmpl, tmpl, &key.PublicKey, key)
+	if err != nil {
+		panic(err)
+	}
+	kb, err := x509.MarshalECPrivateKey(key)
+	if err != nil {
+		panic(err)
+	}
+	certFile, keyFile = filepath.Join(dir, "c19-cert.pem"), filepath.Join(dir, "c19-key.pem")
+	os.WriteFile(certFile, pem.EncodeToMemory(&pem.Block{Type: "CERTIFICATE", Bytes: der}), 0o600)
+	os.WriteFile(keyFile, pem.EncodeToMemory(&pem.Block{Type: "EC PRIVATE KEY", Bytes: kb}), 0o600)
 }
